@@ -23,7 +23,15 @@ lean/TE/Gen/WinPlumbing.lean holds the rows; TE/Model/WinPlumb.lean gives a row 
 machine, TE/Props/C13_Plumb.lean proves that every well-formed row IS the ring buffer of
 TE/Model/Window.lean and `decide`s that every generated row is well-formed.  Anything outside the
 grammar gives an `untranslated` row with the reason (pinned by `C13_plumb_coverage`).
-`crosscheck` confirms the extracted facts on instrumented real instances."""
+`crosscheck` confirms the extracted facts on instrumented real instances.
+
+Spellings the executor sees through (the row is the same as for the plain spelling): calls of the class's own
+methods (inlined at the call site, also inside the merge loops), single-assignment locals, `x = (x + 1) % n`,
+slice OBJECTS (`w = slice(a, b)`; `buf[:, w]`; a local holding `slice(None), i`), `getattr` / `setattr` with
+names that are constants, string concatenations of constants, or targets of loops over literal / module-level
+constant tuples (also `zip` / `enumerate` of them), `t = getattr(self, n); t += v; setattr(self, n, t)`.
+`setattr` names are resolved statically first (`setattr_names`) to know the plain attributes; the assigned
+fields of a merge loop are found by a trial run of its body (so computed names count)."""
 from __future__ import annotations
 import ast, copy, inspect, sys, textwrap
 from ..common import LEAN, Report
@@ -38,7 +46,8 @@ CLASSES = UPDATE_WINDOWED + SAMPLE_WINDOWED
 # functions that construct / combine tensors and cannot reject an input of update(): calls to anything else
 # (the functional helpers, input checks) are "calls that can raise" for the ordering fact
 PURE_PREFIX = ("torch.",)
-PURE_NAMES = {"min", "max", "len", "int", "float", "range", "isinstance", "getattr", "tuple", "list", "super"}
+PURE_NAMES = {"min", "max", "len", "int", "float", "range", "isinstance", "getattr", "tuple", "list", "super",
+              "zip", "enumerate", "reversed", "slice"}
 
 
 def show(t):
@@ -93,10 +102,29 @@ class WExec(Exec):
             return ("slice", part(s.lower), part(s.upper))
         if isinstance(s, ast.Tuple):
             return ("sl",) + tuple(self.ev_slice(x, env) for x in s.elts)
-        return self.ev(s, env)
+        v = self.ev(s, env)
+        if isinstance(v, tuple) and v and v[0] == "tuple" and any(isinstance(x, tuple) and x[:1] == ("slice",) for x in v[1:]):
+            return ("sl",) + v[1:]          # `column = slice(None), self.cursor`; `buf[column]`
+        return v
 
     # ---- expressions
+    @staticmethod
+    def const_term(v):
+        """a python constant / (nested) tuple or list of constants -> term | None"""
+        if isinstance(v, (str, int, float, bool, type(None))):
+            return ("const", repr(v))
+        if isinstance(v, (tuple, list)):
+            xs = [WExec.const_term(x) for x in v]
+            if all(x is not None for x in xs):
+                return ("tuple",) + tuple(xs)
+        return None
+
     def ev(self, e, env: Env):
+        if isinstance(e, ast.Name) and e.id not in env.locals and e.id in self.globs:
+            # module-level constant tables (`_STATE_NAMES = ("a", "b")`, `_PAIRS = (("a", 0), ("b", 1))`) are the tuples they hold
+            t = self.const_term(self.globs[e.id])
+            if t is not None:
+                return t
         if isinstance(e, ast.Subscript):
             base = self.ev(e.value, env)
             sl = self.ev_slice(e.slice, env)
@@ -108,6 +136,11 @@ class WExec(Exec):
         if isinstance(e, ast.BinOp) and isinstance(e.op, (ast.Sub, ast.Mod)):
             a, b = self.ev(e.left, env), self.ev(e.right, env)
             return ("sub" if isinstance(e.op, ast.Sub) else "mod", a, b)
+        if isinstance(e, ast.BinOp) and isinstance(e.op, ast.Add):
+            a, b = self.ev(e.left, env), self.ev(e.right, env)
+            if a[0] == "const" and b[0] == "const" and isinstance(eval(a[1]), str) and isinstance(eval(b[1]), str):
+                return ("const", repr(eval(a[1]) + eval(b[1])))       # "windowed_" + name
+            return ("add", a, b)
         return super().ev(e, env)
 
     def call(self, e: ast.Call, env: Env):
@@ -139,6 +172,15 @@ class WExec(Exec):
         return super().call(e, env)
 
     def fcall(self, name, e, env):
+        if name == "slice" and "slice" not in env.locals and not e.keywords and 1 <= len(e.args) <= 3 \
+                and not any(isinstance(a, ast.Starred) for a in e.args):
+            # a slice OBJECT (`filled = slice(None, self.next_inserted)`; `buf[:, filled]`) is the slice it denotes
+            parts = [self.ev(a, env) for a in e.args]
+            parts = [None if p_ == ("const", "None") else p_ for p_ in parts]
+            if len(parts) == 3 and parts[2] is not None:
+                raise Unsupported("slice with a step")
+            lo, hi = (None, parts[0]) if len(parts) == 1 else (parts[0], parts[1])
+            return ("slice", lo, hi)
         r = super().fcall(name, e, env)
         if r[0] == "call" and not r[1].startswith(PURE_PREFIX) and r[1] not in PURE_NAMES:
             self.log(env, "call", r[1])
@@ -202,6 +244,8 @@ class WExec(Exec):
                                 done.append((en2, None if oc == ("break",) else oc))
                     live = nxt
                 return [(en, None) for en in live] + done
+            if it[0] == "call" and it[1] == "enumerate" and len(it[2]) == 1 and it[2][0][0] in ("tuple", "list") and not it[3]:
+                it = ("call", "zip", (("tuple",) + tuple(("const", repr(i)) for i in range(len(it[2][0]) - 1)), it[2][0]), ())
             if it[0] == "call" and it[1] == "zip" and all(a[0] in ("tuple", "list") for a in it[2]) and not it[3] and not s.orelse:
                 rows = list(zip(*[a[1:] for a in it[2]]))
                 live, done = [env], []
@@ -230,9 +274,6 @@ class WExec(Exec):
                 tg = node.targets
             elif isinstance(node, (ast.AugAssign, ast.AnnAssign)):
                 tg = [node.target]
-            elif isinstance(node, ast.Call) and isinstance(node.func, ast.Attribute) and isinstance(node.func.value, ast.Name) \
-                    and node.func.value.id == "self" and node.func.attr in self.meths:
-                raise Unsupported("self-method call inside the merge loop")
             for t in tg:
                 for tt in ([t] if not isinstance(t, (ast.Tuple, ast.List)) else t.elts):
                     base = tt.value if isinstance(tt, ast.Subscript) else tt
@@ -240,9 +281,32 @@ class WExec(Exec):
                         assigned_locals.add(base.id)
                     else:
                         f = self.self_field(base, env)
-                        if f is None:
-                            raise Unsupported("loop body assigns " + ast.unparse(tt)[:50])
-                        assigned_fields.add(f)
+                        if f is not None:
+                            assigned_fields.add(f)
+                        # else: a target whose name is computed inside the body (`getattr(self, name)[…] = …` under
+                        # `for name in NAMES`) — found by the trial run below; if it is not a state of self at all,
+                        # assign() refuses it there
+        # trial run of the body on a copy of the environment: which fields / locals does it write at all (covers
+        # `setattr(self, name, …)`, subscript assignment through `getattr(self, name)`, loop targets, inlined code)
+        n_loops = len(self.loops)
+        for _ in range(4):          # to a fixpoint: what is found is loop-carried in the next trial
+            trial = env.fork()
+            for n in assigned_locals:
+                trial.locals[n] = ("lv", n)
+            for f in assigned_fields:
+                trial.state[f] = ("lv", "self." + f)
+            trial.locals[s.target.id] = ("obj", "m")
+            locals0, state0 = dict(trial.locals), dict(trial.state)
+            new_f, new_l = set(), set()
+            for en, _oc in self.block(s.body, trial):
+                new_f |= {f for f in self.states if en.state[f] != state0[f]}
+                new_l |= {n for n, v in en.locals.items() if n != s.target.id and not n.startswith("self.")
+                          and (n not in locals0 or locals0[n] != v)}
+            del self.loops[n_loops:]
+            if new_f <= assigned_fields and new_l <= assigned_locals:
+                break
+            assigned_fields |= new_f
+            assigned_locals |= new_l
         k = len(self.loops)
         pre = {"locals": {n: env.locals.get(n) for n in assigned_locals}, "fields": {f: env.state[f] for f in assigned_fields}}
         for n in assigned_locals:
@@ -453,12 +517,192 @@ def adopt_cond(c, state_term, x_term):
 
 # ==================================================================== per-method normal forms
 
+def _module_globals(cls):
+    g = {}
+    for k in reversed(cls.__mro__):
+        if k.__module__.startswith("torcheval") and k.__module__ in sys.modules:
+            g.update(vars(sys.modules[k.__module__]))
+    return g
+
+
+def _is_const(v):
+    return isinstance(v, (str, int, float, bool, type(None)))
+
+
+def setattr_names(fn: ast.FunctionDef, globs):
+    """the attribute names of every `setattr(self, <name>, …)` of a method whose <name> is not a literal, resolved
+    statically: <name> may be built (`+` of strings) from constants, from the targets of `for` loops over literal
+    tuples / lists, over locals bound ONCE to such a literal, over module-level constant tuples, and over `zip` /
+    `enumerate` of those (components that are not constants are unknown and may not reach a name).
+    -> (set of names, every name resolved?)"""
+    UNKNOWN = None      # abstract values: ("c", python constant) | ("t", [abstract, …]) | UNKNOWN; scopes map a name to a LIST of alternatives
+
+    def lift(v):
+        if _is_const(v):
+            return ("c", v)
+        if isinstance(v, (tuple, list)):
+            return ("t", [lift(x) for x in v])
+        return UNKNOWN
+
+    assigned = {}       # name -> how many binding sites it has in the method
+    for node in ast.walk(fn):
+        if isinstance(node, ast.Name) and isinstance(node.ctx, (ast.Store, ast.Del)):
+            assigned[node.id] = assigned.get(node.id, 0) + 1
+        elif isinstance(node, ast.ExceptHandler) and node.name:
+            assigned[node.name] = assigned.get(node.name, 0) + 2
+        elif isinstance(node, (ast.Import, ast.ImportFrom)):
+            for al in node.names:
+                nm_ = (al.asname or al.name).split(".")[0]
+                assigned[nm_] = assigned.get(nm_, 0) + 2
+        elif isinstance(node, (ast.Global, ast.Nonlocal)):
+            for nm_ in node.names:
+                assigned[nm_] = assigned.get(nm_, 0) + 2
+    params = {a.arg for a in fn.args.args + fn.args.kwonlyargs + fn.args.posonlyargs}
+
+    def alts(node, scope):
+        """-> list of alternative abstract values"""
+        if isinstance(node, ast.Constant):
+            return [("c", node.value)]
+        if isinstance(node, (ast.Tuple, ast.List)):
+            els = [alts(x, scope) for x in node.elts]
+            if all(len(a) == 1 for a in els):
+                return [("t", [a[0] for a in els])]
+            return [UNKNOWN]
+        if isinstance(node, ast.Name):
+            if node.id in scope:
+                return scope[node.id]
+            if node.id in assigned or node.id in params:
+                return [UNKNOWN]
+            if node.id in globs:
+                return [lift(globs[node.id])]
+            return [UNKNOWN]
+        if isinstance(node, ast.BinOp) and isinstance(node.op, ast.Add):
+            out = []
+            for a in alts(node.left, scope):
+                for b in alts(node.right, scope):
+                    if a is not UNKNOWN and b is not UNKNOWN and a[0] == b[0] == "c" and isinstance(a[1], str) and isinstance(b[1], str):
+                        out.append(("c", a[1] + b[1]))
+                    else:
+                        out.append(UNKNOWN)
+            return out
+        if isinstance(node, ast.Call) and isinstance(node.func, ast.Name) and node.func.id not in scope and node.func.id not in assigned \
+                and not node.keywords:
+            args = [alts(a, scope) for a in node.args]
+            if all(len(a) == 1 and a[0] is not UNKNOWN and a[0][0] == "t" for a in args) and args:
+                seqs = [a[0][1] for a in args]
+                if node.func.id == "zip":
+                    return [("t", [("t", list(r)) for r in zip(*seqs)])]
+                if node.func.id == "enumerate" and len(seqs) == 1:
+                    return [("t", [("t", [("c", i), x]) for i, x in enumerate(seqs[0])])]
+                if node.func.id in ("tuple", "list") and len(seqs) == 1:
+                    return [("t", list(seqs[0]))]
+        return [UNKNOWN]
+
+    def bind(target, values, scope):
+        """bind a loop / assignment target to the alternatives `values`"""
+        if isinstance(target, ast.Name):
+            scope[target.id] = values
+        elif isinstance(target, (ast.Tuple, ast.List)):
+            for i, t in enumerate(target.elts):
+                vs = []
+                for v in values:
+                    if v is not UNKNOWN and v[0] == "t" and len(v[1]) == len(target.elts) and not any(isinstance(x, ast.Starred) for x in target.elts):
+                        vs.append(v[1][i])
+                    else:
+                        vs.append(UNKNOWN)
+                bind(t, vs, scope)
+
+    names, resolved = set(), [True]
+
+    def visit_expr(node, scope):
+        inner = set()       # nodes inside a comprehension / lambda: their variables have a scope of their own -> never resolved
+        for x in ast.walk(node):
+            if isinstance(x, (ast.ListComp, ast.GeneratorExp, ast.SetComp, ast.DictComp, ast.Lambda)):
+                inner |= {id(y) for y in ast.walk(x)} - {id(x)}
+        for x in ast.walk(node):
+            if isinstance(x, ast.Call) and isinstance(x.func, ast.Name) and x.func.id == "setattr" and x.args \
+                    and isinstance(x.args[0], ast.Name) and x.args[0].id == "self":
+                vs = alts(x.args[1], scope) if len(x.args) > 1 and id(x) not in inner else [UNKNOWN]
+                if vs and all(v is not UNKNOWN and v[0] == "c" and isinstance(v[1], str) for v in vs):
+                    names.update(v[1] for v in vs)
+                else:
+                    resolved[0] = False
+            if isinstance(x, ast.NamedExpr) and isinstance(x.target, ast.Name):
+                scope[x.target.id] = [UNKNOWN]
+
+    def visit(stmts, scope):
+        for s in stmts:
+            if isinstance(s, (ast.For, ast.While)):
+                # a binding made before the loop is stale inside it if the body re-binds the name (second iteration)
+                for y in s.body + s.orelse:
+                    for x in ast.walk(y):
+                        if isinstance(x, ast.Name) and isinstance(x.ctx, ast.Store):
+                            scope.pop(x.id, None)
+            if isinstance(s, ast.For):
+                visit_expr(s.iter, scope)
+                its = alts(s.iter, scope)
+                items = []
+                for it in its:
+                    if it is not UNKNOWN and it[0] == "t":
+                        items += it[1]
+                    else:
+                        items.append(UNKNOWN)
+                bind(s.target, items or [UNKNOWN], scope)
+                visit(s.body, scope)
+                visit(s.orelse, scope)
+            elif isinstance(s, (ast.Assign, ast.AugAssign, ast.AnnAssign)):
+                visit_expr(s, scope)
+                tgs = s.targets if isinstance(s, ast.Assign) else [s.target]
+                if isinstance(s, ast.Assign) and len(tgs) == 1 and isinstance(tgs[0], ast.Name) and assigned.get(tgs[0].id) == 1:
+                    scope[tgs[0].id] = alts(s.value, scope)       # a local bound once (`components = (("total_entropy", x), …)`)
+                else:
+                    for t in tgs:
+                        for x in ast.walk(t):
+                            if isinstance(x, ast.Name) and isinstance(x.ctx, ast.Store):
+                                scope[x.id] = [UNKNOWN]
+            elif isinstance(s, (ast.If, ast.While)):
+                visit_expr(s.test, scope)
+                visit(s.body, scope)
+                visit(s.orelse, scope)
+            elif isinstance(s, ast.With):
+                for it in s.items:
+                    visit_expr(it.context_expr, scope)
+                visit(s.body, scope)
+            elif isinstance(s, ast.Try):
+                visit(s.body, scope)
+                for h in s.handlers:
+                    visit(h.body, scope)
+                visit(s.orelse, scope)
+                visit(s.finalbody, scope)
+            elif isinstance(s, (ast.FunctionDef, ast.ClassDef, ast.AsyncFunctionDef)):
+                visit_expr(s, scope)
+            else:
+                visit_expr(s, scope)
+    visit(fn.body, {})
+    return names, resolved[0]
+
+
 def plain_written(cls, regs):
-    from .states import static_written
-    w, dyn = static_written(cls, ["update", "reset", "merge_state", "compute"])
-    if dyn:
-        raise Unsupported("setattr with a computed name")
-    return {a for a in w if a not in regs}
+    """plain (unregistered) attributes of self written by update / reset / merge_state / compute and the methods of the class
+    they call: assignment targets `self.X` and `setattr(self, <name>, …)` whose names resolve statically (setattr_names)."""
+    from .states import class_methods, self_writes
+    meths = class_methods(cls)
+    globs = _module_globals(cls)
+    seen, todo, written = set(), ["update", "reset", "merge_state", "compute"], set()
+    while todo:
+        n = todo.pop()
+        if n in seen or n not in meths:
+            continue
+        seen.add(n)
+        w, calls, dyn = self_writes(meths[n])
+        written |= w
+        todo += list(calls)
+        if dyn:
+            names, ok = setattr_names(meths[n], globs)
+            if not ok:
+                raise Unsupported(f"setattr with a computed name in {n}()")
+            written |= names
+    return {a for a in written if a not in regs}
 
 
 def consistent(conds):
